@@ -17,6 +17,9 @@ P = {
  "C08": ("exploration", "rapid PBT differential against a reference frame model + long operation histories with a metamorphic oracle (output for N elements = N x output for one)",
    "(a) 8k (150k thorough) programs with 1-4 functions called from every expression position, probing after each call every name a callee touched; (b) every construct that pushes a frame (call, match expression/block body, return in a match block, next in a function, break/continue in match blocks) run over 1...20000 elements and as 1...20000 loop iterations, followed by a depth-1000 recursion. Exploration (model-based, long histories).",
    "Trusted: refjq's frame model (DESIGN.md 4.2). Reads of names living only in a caller's frame (dynamic scope) are unspecified and never generated.", "5/C08, 4.2"),
+ "C09": ("exploration", "rapid stateful (model-based) PBT: straight-line programs built one action per step, every variable and $ dumped after each step, differential against a reference location model; plus a model-free metamorphic check (read-only programs leave the document unchanged)",
+   "6k (120k thorough) histories of up to 15 (40) actions over variables, unset names and $-paths: stores through chains of depth 1-4 with every index class, op=, ++/--, aliasing, stores through parameters and for-in variables, reads of missing paths; all variables and the document are compared with refjq after every action and GetRootJson at the end. 6k (120k) read-only programs must leave the document bit-for-bit equal. Exploration (stateful model-based).",
+   "Trusted: refjq's location model (DESIGN.md 4.3). Open finding KF-array-alias (array length per copy) is excluded dynamically: actions that change the length of an array held in two places are dropped at generation time and counted.", "5/C09, 4.3"),
  "C05": ("exploration", "exhaustive small-scope enumeration + rapid PBT, differential against a reference model of the section-3 operator tables",
    "Every operator x every ordered pair of 40 representative operands x 3-4 supply modes is enumerated completely (about 66k programs), then 20k (quick) / 150k (thorough) random operand pairs; each result is compared in kind, value and error class with the section-3 tables. Exploration, exhaustive over the stated representative grid: it decides the table on the grid, not on every double.",
    "Trusted: refjq's transcription of DESIGN.md section 3; Go's regexp for RE2; exotic numeric strings, non-finite results and |x| >= 2^53 for % are unspecified and discarded (counted).", "5/C05, 3"),
